@@ -232,6 +232,26 @@ func cmdCheck(args []string) int {
 	var specErrs, unsupp []string
 	covers := 0
 	knownHits := []string{}
+	// assumptions that come with contract options of this property's contracts (every one of them is listed)
+	for _, k := range keys {
+		ct := ss.Contracts[k]
+		if ct == nil {
+			continue
+		}
+		if len(ct.Unverified) > 0 {
+			trusted["assumed, not proved: "+strings.Join(ct.Unverified, ", ")+" satisfy the interface contract "+shortKey(k)] = true
+		}
+		if ct.AssumeChecks {
+			notes["assume-checks in "+shortKey(k)+": past a run-time check of a Go statement (bounds, nil, division, make, type assertion) the checked condition is assumed on the rest of the path"] = true
+		}
+	}
+	for k, ct := range ss.Contracts {
+		// pure / spec-only functions whose bodies are not verified but whose applications appear in this
+		// property's specifications are uninterpreted functions of their arguments and the heap
+		if ct != nil && ct.SpecOnly && usedSpecOnly(ss, keys, k) {
+			trusted["assumed: "+shortKey(k)+" is side-effect free and a function of its arguments and the heap (spec-only, body not verified)"] = true
+		}
+	}
 	for _, vc := range vcs {
 		funcs = append(funcs, shortKey(vc.Key))
 		for _, e := range vc.SpecErrs {
@@ -427,6 +447,27 @@ func lemmaNames(ls []*Lemma) []string {
 	return out
 }
 
+// usedSpecOnly: the simple name of the spec-only function k occurs in the text of a clause of one of the contracts.
+func usedSpecOnly(ss *SpecSet, keys []string, k string) bool {
+	name := k
+	if i := strings.LastIndex(name, "."); i >= 0 {
+		name = name[i+1:]
+	}
+	name = strings.TrimSuffix(strings.TrimPrefix(name, "("), ")")
+	for _, key := range keys {
+		ct := ss.Contracts[key]
+		if ct == nil {
+			continue
+		}
+		for _, t := range ct.allClauseTexts() {
+			if strings.Contains(t, name+"(") {
+				return true
+			}
+		}
+	}
+	return false
+}
+
 func trustedBase(used map[string]bool) []string {
 	out := []string{
 		"go/ssa (x/tools v0.29.0) translation of /repo's working tree",
@@ -437,6 +478,8 @@ func trustedBase(used map[string]bool) []string {
 	for k := range used {
 		if strings.HasPrefix(k, "havoc:") {
 			ext = append(ext, "external, result/heap arbitrary: "+strings.TrimPrefix(k, "havoc:"))
+		} else if strings.HasPrefix(k, "assumed") {
+			ext = append(ext, k)
 		} else {
 			ext = append(ext, "trusted model: "+k)
 		}
